@@ -30,10 +30,14 @@ class TraceVerdict:
         self.matched = 0           # events of this trace matched before rejection
         self.next_event = None     # first unmatched event
         self.length = 0
+        self.events = None         # the events of a rejected trace (so that the replay artefact is self-contained)
 
     def as_dict(self):
-        return {"trace": self.name, "accepted": self.accepted, "invariant": self.invariant,
-                "matched": self.matched, "length": self.length, "next_event": self.next_event}
+        d = {"trace": self.name, "accepted": self.accepted, "invariant": self.invariant,
+             "matched": self.matched, "length": self.length, "next_event": self.next_event}
+        if self.events is not None:
+            d["events"] = self.events
+        return d
 
 
 def load_ndjson(path):
@@ -139,6 +143,7 @@ def validate(ctx, module, cfg, traces, tag="b", timeout=600, dfs=True, batch=200
             name, _r, evs = chunk[culprit]
             v = TraceVerdict(name)
             v.length = len(evs)
+            v.events = evs
             v.matched = max(0, (hw or 0) - (pos + 1) - 1)
             v.invariant = violated if violated not in (None, "TraceAccepted", "property") else None
             if v.matched < len(evs):
